@@ -31,10 +31,17 @@ import (
 	"simgo/rewrite"
 )
 
-const (
-	verifDir = "/verif"
-	repoDir  = "/repo"
-)
+// verifDir is where the framework lives (sources of the worlds, simgo,
+// evidence, replays, known findings). VERIF_DIR overrides it for background
+// runs from a snapshot; the registered checks use /verif.
+var verifDir = func() string {
+	if d := os.Getenv("VERIF_DIR"); d != "" {
+		return d
+	}
+	return "/verif"
+}()
+
+const repoDir = "/repo"
 
 type worldSpec struct {
 	name     string
@@ -137,6 +144,20 @@ func fatal(format string, a ...any) {
 	os.Exit(2)
 }
 
+// worldsMod is the go.mod the worlds are built with: the committed one with
+// simgo, glb and glborig replaced by this run's directories.
+func worldsMod(committed, scratch string) string {
+	var keep []string
+	for _, l := range strings.Split(committed, "\n") {
+		if !strings.HasPrefix(strings.TrimSpace(l), "replace ") {
+			keep = append(keep, l)
+		}
+	}
+	return strings.Join(keep, "\n") + "\nreplace simgo => " + filepath.Join(verifDir, "simgo") +
+		"\nreplace github.com/whoisnian/glb => " + filepath.Join(scratch, "glb") +
+		"\nreplace glborig => " + filepath.Join(scratch, "glborig") + "\n"
+}
+
 func goEnv() []string {
 	env := os.Environ()
 	env = append(env, "GOFLAGS=-mod=mod", "GOPROXY=off", "GOSUMDB=off", "GOTOOLCHAIN=local")
@@ -235,7 +256,7 @@ func build(ws *worldSpec) (scratch, bin string) {
 		fatal("%v", err)
 	}
 	modFile := filepath.Join(scratch, "worlds.mod")
-	os.WriteFile(modFile, []byte(string(mod)+"\nreplace github.com/whoisnian/glb => "+filepath.Join(scratch, "glb")+"\nreplace glborig => "+filepath.Join(scratch, "glborig")+"\n"), 0644)
+	os.WriteFile(modFile, []byte(worldsMod(string(mod), scratch)), 0644)
 	sum, _ := os.ReadFile(filepath.Join(repoDir, "go.sum"))
 	os.WriteFile(filepath.Join(scratch, "worlds.sum"), sum, 0644)
 	bin = filepath.Join(scratch, ws.name)
@@ -673,7 +694,7 @@ func buildProc() (scratch, bin string) {
 	}
 	mod, _ := os.ReadFile(filepath.Join(verifDir, "worlds", "go.mod"))
 	modFile := filepath.Join(scratch, "worlds.mod")
-	os.WriteFile(modFile, []byte(string(mod)+"\nreplace github.com/whoisnian/glb => "+filepath.Join(scratch, "glb")+"\nreplace glborig => "+filepath.Join(scratch, "glborig")+"\n"), 0644)
+	os.WriteFile(modFile, []byte(worldsMod(string(mod), scratch)), 0644)
 	sum, _ := os.ReadFile(filepath.Join(repoDir, "go.sum"))
 	os.WriteFile(filepath.Join(scratch, "worlds.sum"), sum, 0644)
 	bin = filepath.Join(scratch, "procworld")
